@@ -101,6 +101,8 @@ func guard(f func() string) (out string) {
 
 var lastPanic string
 
+func plencnullAdd(p *plenc.Plenc) { plencnull.AddCodecs(p) }
+
 func atoiU(s string) (uint64, bool) {
 	v, err := strconv.ParseUint(s, 10, 64)
 	return v, err == nil
@@ -298,6 +300,10 @@ func execOp(s *Sexp) string {
 		return ""
 	}
 	switch h {
+	case "jsonout":
+		return execJSONOut(s)
+	case "internseq":
+		return execInternSeq(s)
 	case "varu":
 		v, ok := atoiU(arg(1))
 		trail, err := unhx(arg(2))
